@@ -10,7 +10,7 @@ Lay(n) == CASE n = 0 -> [dpad |-> 0,    ipad |-> 0,    codec |-> "mh"]
 
 B2N(b) == IF b THEN 1 ELSE 0
 MkOpt(w, d, i, v, m, l) ==
-  [whole |-> w, dup |-> d, ident |-> i, v1 |-> v, maxcid |-> m,
+  [whole |-> w, dup |-> d, ident |-> i, v1 |-> v, maxcid |-> m, maxsec |-> 0,
    dpad |-> Lay(l).dpad, ipad |-> Lay(l).ipad, codec |-> Lay(l).codec]
 
 (* C04: the full semantic option matrix; the layout varies with the options so that every layout
@@ -27,14 +27,18 @@ SemProbes  == {"b1", "b2", "b3", "b4", "b5", "b7", "b8", "b10", "b11", "b19", "b
 LayOpts == { MkOpt(FALSE, d, i, v, 2048, l) : d \in {FALSE}, i \in BOOLEAN, v \in BOOLEAN, l \in 0..3 }
 LayRoots   == { <<>>, <<"b1">>, <<"b3", "b4">>, <<"b1", "b1">>, <<"b13">>, <<"b10">> }
 LayPutIds  == {"b1", "b5", "b10", "b12", "b13", "b14", "b15", "b16"}
-LayMany    == { <<"b13", "b14">> }
+LayMany    == { <<"b13", "b14">>, <<"b14", "b1">> }     \* b14 first: a 128-byte section body followed by another block of the batch
 LayProbes  == {"b1", "b5", "b13", "b14"}
 
 (* C12: interleavings of puts and interruptions; every reopen variant *)
 ResOpts == { MkOpt(FALSE, d, i, v, 2048, l) : d \in BOOLEAN, i \in BOOLEAN, v \in BOOLEAN, l \in 0..2 }
-ResOptsQ == { o \in ResOpts : o.dpad < 1000 }     \* quick tier: the two small layouts
+(* a reader-side section limit (MaxAllowedSectionSize 40) below the size of stored sections: writing, finalizing and
+   resuming do not depend on it (only lookups do, and the replayer does not consult them under this option) *)
+ResLimOpts == { [MkOpt(FALSE, FALSE, FALSE, v, 2048, 0) EXCEPT !.maxsec = 40] : v \in BOOLEAN }
+ResOptsT == ResOpts \cup ResLimOpts
+ResOptsQ == { o \in ResOpts : o.dpad < 1000 } \cup ResLimOpts    \* quick tier: the two small layouts
 ResRoots   == { <<"b1">>, <<"b3", "b4">>, <<>>, <<"b1", "b1">> }
-ResPutIds  == {"b1", "b12", "b5"}     \* b12: a section that ends with its CID (no data bytes)
+ResPutIds  == {"b8", "b12", "b5"}     \* b8: 68-byte CID (sha2-512); b12: a section that ends with its CID (no data bytes)
 ResMany    == {}
-ResProbes  == {"b1", "b12", "b5"}
+ResProbes  == {"b1", "b8", "b12", "b5"}
 =============================================================================
